@@ -48,7 +48,7 @@ var Symbols = map[string]string{
 	"du_1": "1h2m3s", "du_90m": "90m", "du_1h30m0s": "1h30m0s", "du_frac": "1.5s", "du_bad": "1x",
 	"si_12": "12", "si_neg": "-7", "si_7": "7", "si_frac": "1.5", "si_big": "9223372036854775808",
 	"du_neg250ms": "-250ms", "du_neg1ns": "-1ns", "du_neg90m": "-90m", "du_neg1h30m0s": "-1h30m0s", "du_zero": "0s", "du_us": "1.5µs",
-	"su_max": "18446744073709551615", "su_over": "18446744073709551616",
+	"su_max": "18446744073709551615", "su_over": "18446744073709551616", "sf_2p63": "9.223372036854776e+18", "sf_2p64": "1.8446744073709552e+19",
 	"e": "é", "quote": `"`, "bslash": `\`, "nl": "\n", "nul": "\x00", "ls": "\u2028", "astral": "\U0001F600", "ee": "ü", "lt": "<"}
 
 // SymbolsOf is the inverse: the symbol sequence of a concrete string.
